@@ -38,6 +38,12 @@ theorem receivedMaxStreamData_over_limit {s : State} {id n : Nat} (hr : sidIniti
     exact ⟨hr, hi⟩
   simp only [h1, h2, Bool.false_eq_true, ↓reduceIte]
 
+/-- the announcement test of `queue_max_stream_id`: a raise of the stream limit is announced as soon as
+    it amounts to an eighth of the concurrency limit, and any raise at all when that eighth is below one -/
+theorem maxStreamsSignificant_of {diff count : Nat} (h1 : 0 < diff) (h2 : count / 8 ≤ diff) :
+    Gen.maxStreamsSignificant diff count = true := by
+  simp only [Gen.maxStreamsSignificant, Bool.and_eq_true, decide_eq_true_eq]; exact ⟨h1, h2⟩
+
 /-- a RESET_STREAM repeating the final size of a stream that is already reset changes nothing and is
     not an error, whatever the flow-control state is -/
 theorem receivedReset_duplicate {s : State} {id code fo c : Nat} {rs : Recv}
